@@ -101,6 +101,7 @@ type Machine struct {
 	timerSeq    int
 
 	funcsSeen map[*ssa.Function]bool
+	harnessPkg *ssa.Package
 	initDone  map[*ssa.Package]bool
 }
 
@@ -429,6 +430,7 @@ func (m *Machine) tracef(format string, args ...interface{}) {
 
 func (m *Machine) RunPath(h *ssa.Function, prefix []int) (res *PathResult) {
 	m.resetPath(prefix)
+	m.harnessPkg = h.Pkg
 	if m.replayModel == nil {
 		m.sol.BeginPath()
 	}
